@@ -4,7 +4,7 @@ CONSTANT Threads <- MCThreads4
 CONSTANT MaxOps = 2
 CONSTANT CountAtWake = FALSE
 CONSTANT AllowSpurious = TRUE
-INVARIANTS TypeOK C01 C01P C12P C02Quiescent NoDeadlock TicketsAboveBound CountMatches UniqueTickets ActiveOpMatches
+INVARIANTS TypeOK C01 C01P C12P C02Quiescent NoDeadlock TicketsAboveBound CountMatches UniqueTickets ActiveOpMatches IndInv12
 
 CHECK_DEADLOCK FALSE
 SYMMETRY Sym4
